@@ -76,7 +76,11 @@ class World:
         self.nontrivial = False
 
     def pick(self, i):
-        return self.pool[i % len(self.pool)] if self.pool else None
+        # indices 6 and 7 address the most recently produced object, so that chains of operations on one object
+        # (derive -> resize -> write ...) are generated often; the others address the pool modulo its size
+        if not self.pool:
+            return None
+        return self.pool[-1] if i % 8 >= 6 else self.pool[i % len(self.pool)]
 
     def skip(self, why):
         self.skipped[why] = self.skipped.get(why, 0) + 1
@@ -93,8 +97,16 @@ class World:
 
     def apply(self, op):
         getattr(self, 'op_' + op['op'])(op)
+        self.check_live(op['op'])
+        # follow-up mutations applied at once to the newest object (index 7): chains such as
+        # derive -> resize in place -> indexed write are what exposes state left behind by an operation
+        for f in op.get('then') or []:
+            getattr(self, 'op_' + f['op'])(dict(f, i=7))
+            self.check_live(op['op'] + '+' + f['op'])
+
+    def check_live(self, where):
         for i, x in enumerate(self.pool):
-            check_object(x, op['op'] + '/live-object')
+            check_object(x, where + '/live-object')
             self.checked += 1
 
     def near_end(self, x):
@@ -290,7 +302,26 @@ class World:
         n = C.shape_of(x)[0]
         a = op['a'] % n
         z = x[a] if not op['slice'] else x[a:max(a + 1, op['b'] % (n + 1))]
-        self.produced(z, 'index', reinsert=False)
+        # slices stay in the pool as live objects: they are views of their parent, so a later write through one of
+        # them (possibly after it was resized) must leave BOTH objects well-formed
+        self.produced(z, 'index', reinsert=bool(op['slice']))
+
+    def op_view(self, op):
+        x = self.pick(op['i'])
+        if x is None or C.shape_of(x) == ():
+            return self.skip('view-scalar')
+        z = x.T if op['how'] == 'T' else x.copy() if op['how'] == 'copy' else x.flatten()
+        self.produced(z, 'view/' + op['how'])
+
+    def op_resize_inplace(self, op):
+        """resize the pooled object itself (it may be a view or have views), keeping the value when representable"""
+        x = self.pick(op['i'])
+        if x is None:
+            return self.skip('empty-pool')
+        fmt = C.fmt_of(x)
+        grow = op['grow']
+        x.resize(fmt[0], min(fmt[1] + grow, 52), fmt[2] + (op['dfrac'] if fmt[2] + op['dfrac'] <= min(fmt[1] + grow, 52) + 8 else 0))
+        check_object(x, 'resize_inplace')
 
     def op_reduce(self, op):
         x = self.pick(op['i'])
@@ -333,7 +364,8 @@ class World:
 
     def summarize(self, ctx, trace):
         groups = {'construct': 'construct', 'write': 'write', 'write_int': 'write', 'resize': 'resize', 'like': 'like', 'arith': 'arith', 'const': 'arith',
-                  'unary': 'arith', 'shift': 'shift', 'bitwise': 'bitwise', 'index': 'index', 'reduce': 'reduce'}
+                  'unary': 'arith', 'shift': 'shift', 'bitwise': 'bitwise', 'index': 'index', 'reduce': 'reduce', 'view': 'index',
+                  'resize_inplace': 'resize'}
         for op in trace:
             ctx.cls('op:' + groups[op['op']])
         for k, v in self.skipped.items():
@@ -485,9 +517,22 @@ def op_strategies():
         'bitwise': st.fixed_dictionaries({'i': IDX, 'j': IDX, 'name': st.sampled_from(['inv', 'and', 'or', 'xor']),
                                           'mask': st.one_of(st.none(), st.integers(-(1 << 20), 1 << 20))}),
         'index': st.fixed_dictionaries({'i': IDX, 'a': IDX, 'b': IDX, 'slice': st.booleans()}),
+        'view': st.fixed_dictionaries({'i': IDX, 'how': st.sampled_from(['T', 'copy', 'flatten'])}),
+        'resize_inplace': st.fixed_dictionaries({'i': IDX, 'grow': st.integers(0, 8), 'dfrac': st.sampled_from([0, 0, 0, 1, -1])}),
         'reduce': st.fixed_dictionaries({'i': IDX, 'j': IDX, 'name': st.sampled_from(['sum', 'cumsum', 'max', 'min', 'sort', 'transpose', 'clip', 'diagonal', 'trace', 'dot', 'prod', 'cumprod']),
                                          'axis': st.one_of(st.none(), st.integers(0, 1)), 'numpy': st.booleans()}),
     }
+    follow = st.lists(st.one_of(
+        st.fixed_dictionaries({'op': st.just('resize_inplace'), 'grow': st.integers(0, 8), 'dfrac': st.sampled_from([0, 0, 0, 1, -1])}),
+        st.fixed_dictionaries({'op': st.just('write'), 'route': st.sampled_from(['call', 'set_val', 'setitem', 'setitem']), 'rel': REL, 'idx': IDX}),
+        st.fixed_dictionaries({'op': st.just('shift'), 'n': st.integers(0, 4), 'dir': st.sampled_from(['l', 'r']), 'shifting': st.sampled_from(['trunc', 'keep'])})),
+        max_size=3)
+    for name in ('index', 'view', 'like', 'resize', 'construct', 'unary'):
+        base = ops[name]
+        ops[name] = st.tuples(base, follow).map(lambda t: dict(t[0], then=t[1]))
+    ops['write#2'] = ops['write']
+    ops['resize_inplace#2'] = ops['resize_inplace']
+    ops['index#2'] = ops['index']
     ops['arith#2'] = ops['arith']
     ops['construct#2'] = ops['construct']
     ops['reduce#2'] = ops['reduce']
